@@ -3,6 +3,7 @@ package rules
 import (
 	"go/ast"
 	"go/types"
+	"strings"
 
 	"sialint/internal/cfgx"
 	"sialint/internal/ir"
@@ -15,6 +16,7 @@ func init() {
 	register(&Rule{ID: "C09.R2", Prop: "C09", Floor: 3, Doc: "committed Merkle root and persisted roots derive from the same slice", Run: c09r2})
 	register(&Rule{ID: "C09.R3", Prop: "C09", Floor: 2, Doc: "request-derived indices subscript the roots only after validation / bounds check", Run: c09r3})
 	register(&Rule{ID: "C09.R5", Prop: "C09", Floor: 1, Doc: "a contractor's renewal carries the sector roots over from the contract being renewed", Run: c09r5})
+	register(&Rule{ID: "C09.R6", Prop: "C09", Floor: 2, Doc: "nothing is read from the renter's stream after the account was debited (an abandoned upload leaves balances untouched)", Run: c09r6})
 	register(&Rule{ID: "C09.R4", Prop: "C09", Floor: 1, Doc: "client normalises free indices on a private copy (clone, sort descending, compact)", Run: c09r4})
 }
 
@@ -533,4 +535,75 @@ func isParamOf(f *ir.Func, v *types.Var) bool {
 		}
 	}
 	return false
+}
+
+// c09r6: an upload that is abandoned half-way costs nothing. Once an account was debited for an RPC nothing more is
+// read from the renter's stream in that handler: everything the renter has to supply (the request, the sector
+// data) is received before the debit, so a renter that stops sending makes the handler fail while balances are still
+// untouched.
+func c09r6(c *Ctx) {
+	h := getHostAPI(c.P)
+	n := 0
+	for _, f := range h.handlers {
+		debits := f.CallsTo(false, h.debit)
+		if len(debits) == 0 {
+			continue
+		}
+		// the handler's stream: its net.Conn parameter
+		var stream types.Object
+		if f.Type.Params != nil {
+			for _, fld := range f.Type.Params.List {
+				for _, nm := range fld.Names {
+					if o := f.Info().Defs[nm]; o != nil && ir.IsNamed(o.Type(), "net", "Conn") {
+						stream = o
+					}
+				}
+			}
+		}
+		if stream == nil {
+			continue
+		}
+		g := f.Graph()
+		c.VisitGraph(f)
+		for _, d := range debits {
+			n++
+			ob := c.Ob(f, "nothing-read-after-debit", d.Pos())
+			chk := f.CheckOf(d.Expr)
+			reach := f.ReachableFromEdges(chk.Succ, nil)
+			bad := false
+			for m := range reach {
+				if m.AST == nil || bad {
+					continue
+				}
+				for _, call := range f.NodeCalls(m) {
+					reads := false
+					for _, a := range call.Expr.Args {
+						if f.ObjOf(a) == stream {
+							reads = true
+						}
+					}
+					if rcv := call.Recv(); rcv != nil && f.ObjOf(rcv) == stream {
+						reads = true
+					}
+					name := ""
+					if call.Fn != nil {
+						name = call.Fn.Name()
+					}
+					if !reads || strings.HasPrefix(name, "Write") || name == "Close" || strings.HasPrefix(name, "Set") {
+						continue
+					}
+					ob.Bad(nil, "after the account was debited at %s the handler still reads from the renter's stream (%s at %s): a renter that stops sending there has paid for an RPC that fails, and nothing refunds it", c.P.Pos(d.Pos()), name, c.P.Pos(call.Pos()))
+					bad = true
+					break
+				}
+			}
+			_ = g
+			if !bad {
+				ob.OK("no read from the stream is reachable after the debit succeeded")
+			}
+		}
+	}
+	if n == 0 {
+		ir.Fail("no handler debits an account")
+	}
 }
